@@ -27,12 +27,17 @@ NextTab(r) ==
      [] r.k \in {"drop", "begin"} -> Tab0
      [] OTHER -> tab
 Changed(r, d, f) == r.k = "update" /\ r.d = d /\ r.f = f /\ Changes(tab[d][f], OpsOf(r.wd, r.nl, r.a)) > 0
+\* what a lookup in the IPv4 Adj-RIB-In answers: the longest present pool prefix that covers the asked prefix / address
+\* (r.cov[q]: the covering pool prefixes, longest first), with the attributes the table holds for it; nothing when there is none
+RECURSIVE FirstPresent(_, _)
+FirstPresent(ks, t) == IF ks = <<>> THEN <<"", 0>> ELSE IF t[Head(ks)] # 0 THEN <<Head(ks), t[Head(ks)]>> ELSE FirstPresent(Tail(ks), t)
 CheckLine(r) ==
    LET nt == NextTab(r) IN
    /\ Ck(r, "C19.ribin", r.up => r.ribin = nt["in"]["ipv4"], <<r.ribin, nt["in"]["ipv4"]>>)
    /\ Ck(r, "C19.ribout", r.up => r.ribout = nt["out"]["ipv4"], <<r.ribout, nt["out"]["ipv4"]>>)
    /\ Ck(r, "C19.empty", ~r.up => r.ribin = Empty(KeysOf("ipv4")), r.ribin)
    /\ Ck(r, "C19.rest", r.restok, <<>>)
+   /\ \A q \in DOMAIN r.cov : Ck(r, "C19.lookup", r.up => r.lookup[q] = FirstPresent(r.cov[q], nt["in"]["ipv4"]), <<q, r.lookup[q]>>)
    /\ Ck(r, "C19.sent", (r.k = "update" /\ r.d = "out") => r.sendok, <<>>)
    /\ Ck(r, "C19.noescape", r.exc = 0, <<>>)
    /\ \A d \in Dirs, f \in Fams :
